@@ -26,6 +26,30 @@ import (
 func init() { gens["C13"] = genC13 }
 
 const c13Tag = "C13_moremath_tied_exact_path"
+const c13TagOverflow = "C13_normal_compare_overflow_panic"
+
+// c13WelchOverflows: the Welch computation of go-moremath leaves the floats for
+// these samples: (variance/n)^2 is +Inf, or the degrees of freedom come out
+// NaN/Inf (Inf/Inf after overflow, 0/0 after underflow). Input predicate of
+// the known finding C13_normal_compare_overflow_panic.
+func c13WelchOverflows(x1, x2 []float64) bool {
+	n1, n2 := float64(len(x1)), float64(len(x2))
+	if n1 <= 1 || n2 <= 1 {
+		return false
+	}
+	s1 := append([]float64(nil), x1...)
+	s2 := append([]float64(nil), x2...)
+	sort.Float64s(s1)
+	sort.Float64s(s2)
+	v1, v2 := stats.Variance(s1), stats.Variance(s2)
+	if v1 == 0 && v2 == 0 {
+		return false
+	}
+	a, b := v1/n1, v2/n2
+	dof := math.Pow(a+b, 2) / (math.Pow(a, 2)/(n1-1) + math.Pow(b, 2)/(n2-1))
+	return math.IsInf(math.Pow(a, 2), 0) || math.IsInf(math.Pow(b, 2), 0) || math.IsInf(math.Pow(a+b, 2), 0) ||
+		math.IsNaN(dof) || math.IsInf(dof, 0)
+}
 
 type c13Input struct {
 	Kind       string   `json:"kind"`
@@ -501,9 +525,16 @@ func c13CompareCase(o *hx.Out, r *hx.Rng, ai int, x1, x2 []float64, alpha float6
 	a := c13Assumptions[ai]
 	in := c13Input{Kind: "compare", Assumption: c13AssumptionNames[ai], Values: c13fs(x1), Values2: c13fs(x2), Alpha: c13f(alpha)}
 	res, s1, s2 := c13Compare(a, x1, x2, alpha)
+	var tags []string
+	if ai == 2 && c13WelchOverflows(x1, x2) {
+		tags = append(tags, c13TagOverflow)
+		o.Count("tagged " + c13TagOverflow)
+	}
 	if res.panicked {
 		o.Count("compare panic")
-		o.Add(hx.L(hx.I(2), hx.I(ai), c13FL(x1), c13FL(x2), hx.F64(alpha), hx.L(hx.I(1))), in, "panic", false)
+		in.Observed = "PANIC"
+		o.Add(hx.L(hx.I(2), hx.I(ai), c13FL(x1), c13FL(x2), hx.F64(alpha), hx.L(hx.I(1))), in,
+			fmt.Sprintf("C%d/%v/%v/%v", ai, in.Values, in.Values2, alpha), true, tags...)
 		return
 	}
 	c := res.c
@@ -525,6 +556,11 @@ func c13CompareCase(o *hx.Out, r *hx.Rng, ai int, x1, x2 []float64, alpha float6
 	var variants []hx.Sx
 	var ps = []float64{c.P}
 	addVar := func(kind int, y1, y2 []float64, valid bool) {
+		if ai == 2 && len(tags) == 0 && c13WelchOverflows(y1, y2) {
+			// the rescaled input falls into the overflow finding's domain although the
+			// original does not: not a statement about this input
+			valid = false
+		}
 		v, _, _ := c13Compare(a, y1, y2, alpha)
 		if v.panicked {
 			variants = append(variants, hx.L(hx.I(kind), hx.F64(math.NaN()), hx.I(-1), hx.I(-1), hx.Bool(valid)))
@@ -544,7 +580,6 @@ func c13CompareCase(o *hx.Out, r *hx.Rng, ai int, x1, x2 []float64, alpha float6
 	z1, z2 := c13Scale(x1, 10), c13Scale(x2, 10)
 	addVar(4, z1, z2, c13ScaleKeepsOrder(x1, x2, z1, z2))
 
-	var tags []string
 	tied := false
 	exact := false
 	if ai == 0 && len(x1) > 0 && len(x2) > 0 && len(x1) <= 25 && len(x2) <= 25 {
@@ -753,6 +788,35 @@ func genC13(o *hx.Out, r *hx.Rng, tier string, replay string) error {
 			x2 = c13Values(r, n2, 1, 0)
 		}
 		c13CompareCase(o, r, ai, x1, x2, c13Alpha(r))
+	}
+	// the normal model beyond the range of its intermediate arithmetic (known
+	// finding C13_normal_compare_overflow_panic): (variance/n)^2 overflowing or
+	// underflowing, in one sample or both
+	nO := 10
+	if tier == "thorough" {
+		nO = 60
+	}
+	c13CompareCase(o, r, 2, []float64{4.944247551662357e-66, 8.774573370410683e-68, 2.6976835841875326e-67, 3.851292956526457e-67, -3.003399546835419e-66},
+		[]float64{-6.418567847939022e+78, 1.153234906434618e+79, 4.2199994183924477e+77}, 0.05)
+	c13CompareCase(o, r, 2, []float64{math.Ldexp(1, -220), math.Ldexp(2, -220), math.Ldexp(3, -220)},
+		[]float64{math.Ldexp(1, 260), math.Ldexp(2, 260), math.Ldexp(4, 260)}, 0.05)
+	for i := 0; i < nO; i++ {
+		var e1, e2 int
+		switch r.Intn(5) {
+		case 0: // second sample's (variance/n)^2 overflows
+			e1, e2 = r.Range(-250, 100), r.Range(257, 300)
+		case 1: // both overflow
+			e1, e2 = r.Range(257, 300), r.Range(257, 300)
+		case 2: // both underflow: 0/0
+			e1, e2 = r.Range(-330, -275), r.Range(-330, -275)
+		case 3: // the variance itself overflows
+			e1, e2 = r.Range(505, 508), r.Range(-20, 508)
+		default: // near the edge, either side
+			e1, e2 = r.Range(240, 262), r.Range(240, 262)
+		}
+		x1 := c13Values(r, r.Range(2, 8), 4, e1)
+		x2 := c13Values(r, r.Range(2, 8), 4, e2)
+		c13CompareCase(o, r, 2, x1, x2, c13Alpha(r))
 	}
 	for i := 0; i < nD; i++ {
 		c13Direct(o, r)
